@@ -1,4 +1,30 @@
-(* placeholder so that the pipeline can be exercised; replaced by the real theorems *)
-From SV Require Import Names Rep.
-Theorem C12_placeholder : True. Proof. exact I. Qed.
-Print Assumptions C12_placeholder.
+(* C12 -- the Vietoris-Rips complex has a simplex exactly on the mutually close point sets.
+   Theorem statements only; proofs (by computation in the kernel) in Sweeps.v and Floats.v.
+   The model separates the two halves of vietorisRipsComplex: (1) which pairs are close -- the
+   binary64 test distance(p, q) <= eps -- and (2) the complex built from the close pairs.
+   BOUNDED: (2) for every closeness relation on at most 4 points (all 2^6 of them and fewer
+   points), including the empty relation (just the points) and the full one (the full simplex),
+   and inclusion of families for every pair of nested relations on 4 points; (1) on exactly
+   representable examples.  For arbitrary doubles the tie with the code is the correspondence
+   and the oracle (tested_only). *)
+From Coq Require Import String ZArith Bool Arith List PrimFloat.
+From SV Require Import Names Rep Complex Homology Filtration Gen World Small Sweeps Floats.
+Import ListNotations.
+
+Theorem C12_family_upto4_partial :
+  forallb (fun n => forallb (chk_vr n) (sublists (all_pairs n))) (seq 0 5) = true.
+Proof. exact sweep_vr4. Qed.
+Print Assumptions C12_family_upto4_partial.
+
+Theorem C12_monotone_upto4_partial :
+  forallb (fun c1 => forallb (chk_vr_monotone 4 c1) (sublists (all_pairs 4))) (sublists (all_pairs 4)) = true.
+Proof. exact sweep_vr_monotone4. Qed.
+Print Assumptions C12_monotone_upto4_partial.
+
+(* the closeness test in binary64: Euclidean distance, ties at exactly eps included, a negative
+   radius excludes even coincident points *)
+Theorem C12_closeness_examples :
+  distance [0; 0]%float [3; 4]%float = 5%float /\ close 5 [0; 0]%float [3; 4]%float = true /\
+  close (-1) [0; 0]%float [0; 0]%float = false /\ distance [2]%float [-1]%float = 3%float.
+Proof. split; [exact distance_345|]. split; [exact close_tie|]. split; [exact close_negative | exact distance_1d]. Qed.
+Print Assumptions C12_closeness_examples.
